@@ -55,7 +55,14 @@ def state_names(pool: list) -> list:
         for m in re.finditer(r"^d(\w+)_dt\s*=", text, re.M):
             if m.group(1) not in names:
                 names.append(m.group(1))
-    return names[:12] + ["zz_not_a_state"]
+    names = names[:12]
+    # names that are NOT states but differ from one only in case: they must have no effect
+    variants = []
+    for n in names[:6]:
+        for v in (n.lower(), n.upper(), n.swapcase()):
+            if v != n and v not in names and v not in variants:
+                variants.append(v)
+    return names + variants[:6] + ["zz_not_a_state"]
 
 
 def build_machine():
@@ -239,6 +246,49 @@ def build_machine():
                 # harness trouble must never look like a property violation to the shrinker
                 CTX.harness_error = "%s: %s\n%s\ntrace=%s" % (type(e).__name__, e, traceback.format_exc()[-1500:],
                                                              json.dumps(self.world.trace)[-1500:])
+                self.noop = True
+
+        @rule(which=st.sampled_from(["delta", "stiff", "scheme", "format", "backend", "remove_unused", "outname", "to", "same"]),
+              delta=st.sampled_from([1e-8, 1e-6, 0.001, 0.5]),
+              stiff=st.lists(st.sampled_from(stiff_pool), min_size=1, max_size=3, unique=True),
+              scheme=st.lists(st.sampled_from(SCHEMES), min_size=1, max_size=3, unique=True),
+              flag=st.booleans())
+        def reinvoke_one_option_changed(self, which, delta, stiff, scheme, flag):
+            """Repeat the previous invocation with exactly one option changed (or none):
+            the sequence that exposes anything remembered between invocations."""
+            if self.noop:
+                return
+            prev = next((t for t in reversed(self.world.trace) if t.get("op") == "invoke"), None)
+            if prev is None:
+                return
+            op = {"cmd": prev["cmd"], "cwd": prev.get("cwd", "."), "fname": prev["fname"], "opts": dict(prev.get("opts", {}))}
+            o = op["opts"]
+            cmd = op["cmd"]
+            if which == "delta" and cmd != "cellml2ode":
+                o["delta"] = delta
+                o.setdefault("scheme", ["generalized_rush_larsen"])
+            elif which == "stiff" and cmd != "cellml2ode":
+                o["stiff"] = stiff
+                o.setdefault("scheme", ["hybrid_rush_larsen"])
+            elif which == "scheme" and cmd != "cellml2ode":
+                o["scheme"] = scheme
+            elif which == "format" and cmd in ("ode2py", "ode2c"):
+                o["format"] = "none" if o.get("format") not in (None, "none") or flag else ("black" if cmd == "ode2py" else "clang-format")
+            elif which == "backend" and cmd == "ode2py":
+                o["backend"] = "jax" if o.get("backend") != "jax" else "numpy"
+            elif which == "remove_unused" and cmd != "cellml2ode":
+                o["remove_unused"] = not o.get("remove_unused", False)
+            elif which == "outname":
+                o["outname"] = "again" if flag else "gen/again"
+            elif which == "to" and cmd == "ode2c":
+                o["to"] = ".c" if o.get("to") != ".c" else ".h"
+            try:
+                self.world.count("reinvoke:" + which)
+                self.world.invoke(op)
+            except AssertionError:
+                raise
+            except Exception as e:
+                CTX.harness_error = "%s: %s\n%s" % (type(e).__name__, e, traceback.format_exc()[-1500:])
                 self.noop = True
 
         # several identical invoke rules: invocations should dominate the step budget
